@@ -183,3 +183,12 @@ add({"name": "free_compute", "file": "dfs/cmd_free.cc",
                (r"catalog\.max_file_count\(\)", "catalog->max_file_count", 1),
                (r"catalog\.total_sectors\(\)", "catalog->total_sectors", 1)],
      "dropped": ["ostream_flag_saver", "the `show` output lambda", "locale imbue"]})
+
+# ---- afsp.cc (C15): the per-character translation inside convert_wildcard_into_extended_regex --------
+add({"name": "afsp_up", "file": "dfs/afsp.cc", "anchor": r"inline char up\(char ch\)", "sig": "static char afsp_up(char ch)",
+     "rules": [(r"static_cast<char>\(", "(char)(", 1), (r"static_cast<unsigned char>\(", "(unsigned char)(", 1), (r"\btoupper\(", "verif_toupper(", 1)]})
+add({"name": "afsp_down", "file": "dfs/afsp.cc", "anchor": r"inline char down\(char ch\)", "sig": "static char afsp_down(char ch)",
+     "rules": [(r"static_cast<char>\(", "(char)(", 1), (r"static_cast<unsigned char>\(", "(unsigned char)(", 1), (r"\btolower\(", "verif_tolower(", 1)]})
+add({"name": "wildcard_char_to_ere", "file": "dfs/afsp.cc", "anchor": r"for \(auto w : full_wildcard\)",
+     "sig": "static void wildcard_char_to_ere(char w, struct charvec *parts)",
+     "rules": [(r"parts\.push_back\(", "charvec_push(parts, ", 19), (r"\bup\(", "afsp_up(", 2), (r"\bdown\(", "afsp_down(", 2)]})
